@@ -291,6 +291,15 @@ macro_rules
       | with_reducible exact pres_alloc _ | with_reducible exact pres_newNull | with_reducible exact pres_newBool _
       | with_reducible exact pres_newNum _ | with_reducible exact pres_newStr _ | with_reducible exact pres_dup _ _)
 
+/-- `loopSignalToException` (a loop signal that escapes its body becomes an exception value) only allocates -/
+theorem pres_loopSignalToException {R : VM ν → VM ν → Prop} [GrowRel R] (e : Err) :
+    Pres R (loopSignalToException e : M ν Err) := by
+  unfold loopSignalToException
+  pres_auto
+
+macro_rules
+  | `(tactic| pres_leaf) => `(tactic| with_reducible exact pres_loopSignalToException _)
+
 /-! ## mutators: only the receiver's own cell is written -/
 
 /-- nothing but the heap differs; the heap did not shrink; every old cell other than `a` is unchanged -/
